@@ -187,6 +187,19 @@ func runSLH(rc *sk.RunCtx, focus string) {
 			}
 			deepMerge(s.extra, map[string]any{"lighthouse": lhc, "preferred_ranges": prs,
 				"punchy": map[string]any{"punch": true, "respond": true, "delay": "40ms", "respond_delay": "80ms"}})
+			if i > 0 && tp.Chance(1, 2) {
+				// the node advertises relays, listed in descending order (the candidate list must come out sorted
+				// and deduplicated whatever the reporting order, also for peers with a single direct address)
+				var rl []any
+				for k := 2; k >= 0; k-- {
+					if k != i && tp.Chance(2, 3) {
+						rl = append(rl, overlayAddr(k, 0).Addr().String())
+					}
+				}
+				if len(rl) > 0 {
+					deepMerge(s.extra, map[string]any{"relay": map[string]any{"relays": rl, "use_relays": true}})
+				}
+			}
 		}})
 	if rc.Failed() {
 		return
@@ -327,7 +340,28 @@ func (w *slhWorld) checkDestination(from *simNode, d *simDatagram) {
 		for _, c := range cands {
 			// a multi-address peer lies in several overlay ranges: it is enough that the address is
 			// allowed for one of the peer's overlay addresses (the statement speaks of "the peer's range")
+			// The tunnel object being dialled may know only the dialled address while the peer (ground truth) owns
+			// several: the node's address cache for that peer is shared by all of them and filters with whichever
+			// addresses it knew when it was created (thorough-tier false alarm, corrected: expand to the owner's set).
+			full := append([]netip.Addr(nil), c...)
 			for _, one := range c {
+				for _, p := range w.nodes {
+					owns := false
+					for _, pn := range p.spec.nets {
+						if pn.Addr() == one {
+							owns = true
+						}
+					}
+					if owns {
+						for _, pn := range p.spec.nets {
+							if !slices.Contains(full, pn.Addr()) {
+								full = append(full, pn.Addr())
+							}
+						}
+					}
+				}
+			}
+			for _, one := range full {
 				if al.allow([]netip.Addr{one}, d.to.Addr()) {
 					ok = true
 				}
@@ -701,6 +735,14 @@ func (w *slhWorld) byzantineMessage() {
 	if err != nil {
 		return
 	}
+	// let whatever the target had queued before this message (punches scheduled by earlier, authorized lighthouse
+	// messages; a stalled node has not run its workers) go out first, so that what follows the probe is the probe's
+	w.pump()
+	time.Sleep(100 * time.Millisecond)
+	synctest.Wait()
+	w.AddSimTimeAndNow(100 * time.Millisecond)
+	T.drainChannels()
+	w.pump()
 	// a harmless authenticated packet first, so that any roaming of the sender's underlay address is
 	// already settled when the snapshot is taken
 	nPre := len(Z.conn.out)
@@ -735,9 +777,12 @@ func (w *slhWorld) byzantineMessage() {
 	desc := fmt.Sprintf("%s (claimed owner %v, encoding v%d, %d addresses) from peer %v to node %d (lighthouse=%v, sender is one of its lighthouses=%v)", typ, claimed, map[bool]int{true: 1, false: 2}[v1], len(all), Z.f.myVpnAddrs, T.idx, isLH, zIsLHofT)
 	w.rc.Logf("t=%v byzantine %s", w.now, desc)
 	// any punch toward one of the fake addresses?
+	// (only punch-shaped datagrams, and only toward addresses the node did not already hold for some peer before the
+	// message: the small fake-address pools make a later message name an address that an earlier, authorized one
+	// legitimately taught the node, and punches queued by that earlier message may fire in this window)
 	punched := false
 	for _, d := range replies {
-		if slices.Contains(all, d.to) {
+		if len(d.data) == 1 && slices.Contains(all, d.to) && !strings.Contains(before, d.to.String()) {
 			punched = true
 		}
 	}
@@ -854,7 +899,15 @@ func foreignChange(before, after string, own []netip.Addr) string {
 			}
 			return s
 		}
-		if strip(b[k]) != strip(a[k]) {
+		// an entry that did not exist before equals an empty one: creating one's own entry with only one's own
+		// slot in it touches nobody else (thorough-tier false alarm, corrected)
+		norm := func(s string) string {
+			if s == "" {
+				return "{} bad=[]"
+			}
+			return strip(s)
+		}
+		if norm(b[k]) != norm(a[k]) {
 			return fmt.Sprintf("entry %s, slot of another source\nbefore: %s\nafter:  %s", k, b[k], a[k])
 		}
 	}
